@@ -58,18 +58,29 @@ def main():
     ok = all(rec["confirmed"].get(k) for k in ("patch_applies", "existing_tests_pass_with_patch", "demo_fails_with_patch", "demo_passes_without_patch"))
     rec["kept"] = ok
     if ok:
-        # run the check against the mutated /repo
-        assert sh("git status --porcelain", "/repo")[1].strip() == "", "/repo not clean"
-        rc, out = sh("git apply %s" % os.path.join(dst, "patch.diff"), "/repo")
+        # run the check against a mutated COPY of /repo (a worktree with the patch applied);
+        # /repo itself is not touched, so other work can go on meanwhile
+        mrepo = "/tmp/seedrepo-" + sid
+        sh("git worktree remove --force %s" % mrepo, "/repo")
+        rc, out = sh("git worktree add -q --detach %s HEAD" % mrepo, "/repo")
+        assert rc == 0, out
         try:
+            rc, out = sh("git apply %s" % os.path.join(dst, "patch.diff"), mrepo)
+            assert rc == 0, out
+            modfile = "/tmp/seedmod-%s.mod" % sid
+            gomod = open("/verif/engine/go.mod").read().replace("=> /repo", "=> " + mrepo)
+            open(modfile, "w").write(gomod)
+            shutil.copy("/verif/engine/go.sum", modfile[:-4] + ".sum")
+            env = dict(os.environ, VERIF_MODFILE=modfile, VERIF_BIN="/tmp/seedbin-" + sid, VERIF_EVIDENCE_DIR="/tmp/seedev-" + sid)
             t0 = time.time()
-            p = subprocess.run(["./check", prop] + extra, cwd="/verif", capture_output=True, text=True, timeout=7200)
+            p = subprocess.run(["./check", prop] + extra, cwd="/verif", capture_output=True, text=True, timeout=7200, env=env)
             lines = [l for l in p.stdout.splitlines() if l.startswith("VIOLATION")]
             rec["check"] = dict(cmd="./check %s %s" % (prop, " ".join(extra)), exit=p.returncode, violation_lines=lines[:5],
                                 caught=(p.returncode == 1 and bool(lines)), wall_s=round(time.time() - t0, 1),
                                 stderr_tail=p.stderr[-1500:])
         finally:
-            sh("git checkout -- .", "/repo")
+            sh("git worktree remove --force %s" % mrepo, "/repo")
+            sh("rm -rf /tmp/seedbin-%s /tmp/seedev-%s /tmp/seedmod-%s.mod /tmp/seedmod-%s.sum" % (sid, sid, sid, sid), "/tmp")
     json.dump(dict(property=prop, what_it_breaks=meta.get("what_it_breaks"), needs_to_manifest=meta.get("needs_to_manifest"),
                    agent_commands=meta.get("commands_run"), confirmed=rec["confirmed"], kept=rec["kept"], check=rec.get("check")),
               open(os.path.join(dst, "meta.json"), "w"), indent=1)
